@@ -34,7 +34,8 @@ pub const EW_ADJUST: usize = 4;
 pub const EW_FAULT: usize = 5;
 pub const EW_NEW_ARENA: usize = 6;
 pub const EW_DROP_ARENA: usize = 7;
-pub const EW_N: usize = 8;
+pub const EW_DROP_FAULT: usize = 8;
+pub const EW_N: usize = 9;
 
 // op weight indices
 pub const OW_ALLOC_LINK: usize = 0;
@@ -179,6 +180,9 @@ impl Gen {
         if tok::armed_pending() {
             we[EW_FAULT] = 0;
         }
+        if tok::drop_fault_pending() {
+            we[EW_DROP_FAULT] = 0;
+        }
         let a = live[self.rng.below(live.len())];
         match self.rng.weighted(&we) {
             EW_MUTATE => {
@@ -233,6 +237,7 @@ impl Gen {
                 Event::AdjustDebt { a, x: if neg { -x } else { x } }
             }
             EW_FAULT => Event::ArmTraceFault { at: tok::ticks() + 1 + self.rng.below(12) as u64, repeat: 1 + self.rng.below(3) as u32 },
+            EW_DROP_FAULT => Event::ArmDropFault { nth: 1 + self.rng.below(6) as u32 },
             EW_NEW_ARENA => self.new_arena_event(w, n_slots as Aid),
             _ => Event::DropArena { a },
         }
